@@ -54,6 +54,12 @@ C07_NotEarly(api) == \A j \in DOMAIN api : Started(api[j]) => api[j].st >= api[j
 C07_NotEarlyStep(api, apiN, nowN) == \A j \in DOMAIN api : StartsNow(api, apiN, j) => (nowN >= api[j].sa /\ apiN[j].st <= nowN)
 \* the concurrency policy is applied once the Job is due: a refusal is never written for a Job whose startAfter is still ahead
 C07_RefusedOnlyWhenDueStep(api, apiN, nowN) == \A j \in DOMAIN api : (api[j].ex /\ ~api[j].adm /\ apiN[j].adm) => nowN >= apiN[j].sa
+\* once its startAfter has passed, a JobConfig's Job is started as soon as the policy allows: at quiescence only an
+\* Enqueue Job of a JobConfig at its limit may still wait
+C07_DueStarts(api, now, maxc) ==
+    \A j \in DOMAIN api :
+        (Queued(api[j]) /\ ~api[j].adm /\ api[j].sa # 0 /\ api[j].sa <= now /\ api[j].jc # 0) =>
+            (api[j].pol = "Enqueue" /\ TrueActive(api, api[j].jc) >= maxc[api[j].jc])
 C07_IndependentStarts(api, now) == \A j \in DOMAIN api : (Queued(api[j]) /\ api[j].jc = 0 /\ ~api[j].adm) => api[j].sa > now
 
 \* ---- C15: JobConfig status (jobconfigcontroller) ----
